@@ -127,11 +127,20 @@ def sendJoinByID {P} (O : Oracles P) (prov : Option EventProvider) (A S : List E
 def stateLookup (kvs : List (Bytes × Event)) (id : Bytes) : Option Event :=
   (kvs.find? (fun kv => kv.1 == id)).map (·.2)
 
+/-- Do the events the provider returned form a room state?  Every one is a state event, and no
+    (type, state_key) is held by two different events (the same event listed twice is one event). -/
+def formsState (S : List Event) : Bool :=
+  S.all (fun a => a.stateKey.isSome) &&
+  !S.any (fun a => S.any (fun b => (b.type == a.type && b.stateKey == a.stateKey) && !sameEvent a b))
+
 /-- C14: accepted exactly when (validation permitted and every auth event ID is in the state before
     the event) or the event is allowed by THE STATE before it: every event of the state the provider
     returned takes part, whether or not the event chose to cite it in its `auth_events` (an event
     that leaves the power levels, the join rules, a ban out of its `auth_events` is still judged by
-    them).  A "state" containing an event without a state key is no state: nothing is allowed by it.
+    them).  A "state" containing an event without a state key, or two different events for one
+    (type, state_key) — the answer of a remote /state request may be anything —, is no state: nothing is
+    allowed by it (as for CheckStateResponse: "duplicate state keys and non-state events make the whole
+    response fail"), and in particular the answer does not depend on the order in which the events are looked at.
     `none` = a provider call failed. -/
 def atState {P} (O : Oracles P) (sp : StateProvider) (e : Event) (allowValidation : Bool) : Option Bool :=
   match sp.ids e with
@@ -141,7 +150,7 @@ def atState {P} (O : Oracles P) (sp : StateProvider) (e : Event) (allowValidatio
     else match sp.state e ids with
       | none => none
       | some kvs =>
-        if kvs.any (fun kv => kv.2.stateKey.isNone) then some false
+        if !formsState (kvs.map (·.2)) then some false
         else some (O.allowedBy e (stateProviderOf O (kvs.map (·.2))))
 
 /-- an auth event ID of `e` is bound, in the returned state, to an event without a state key -/
